@@ -13,6 +13,7 @@ LEVEL = {
     'C10': 'fault_enumeration',
     'C16': 'exploration',
     'C09': 'exploration',
+    'C17': 'exploration',
 }
 
 ASSUMPTIONS = [
@@ -356,6 +357,17 @@ CAMPAIGNS['C08'].append(
          'subbuild key under seeded schedules: exactly one execution, the '
          'others get RuntimeError, the winner is intact',
          nontrivial=nt_threads, post='tag_all:C08'))
+CAMPAIGNS['C17'] = [
+    camp('c17-stragglers', 'stragglers', {},
+         'a detached simulated thread keeps calling builder methods (9 query '
+         'kinds, subbuild, build_file) on the builder of a root / subbuild / '
+         'build_file function while that function returns or raises; seeded '
+         'random, PCT and single-preemption schedules; a call invoked after '
+         'the owner\'s API call returned must raise RuntimeError; the record '
+         'must contain exactly the calls that completed (checked by mutating '
+         'what only the straggler read and rebuilding)',
+         nontrivial=nt_threads),
+]
 SWAP_RULE = ('two root programs whose output paths sit above / below each '
              'other (file <-> directory swaps of outputs between builds)')
 NESTED_RULE = ('build_file functions that build nested outputs and then fail, '
